@@ -4,6 +4,11 @@ manifest is valid at every commit)."""
 import json, os, sys
 
 CHECKS = {
+ "C08": ("model_checking",
+         "stateless schedule enumeration of the real UI and fan-out code under a cooperative scheduler: depth-first search with replay, preemption bound raised 0,1,2(,3), happens-before fingerprint pruning",
+         "10 UI scenarios (open, feed, keys, resize, link selection, media hook, command line, racing loaders; each goroutine started as main does) and 6 pub-level scenarios (post fan-out, activity, two-page harvest, duplicate authors through the coalescing fetcher, NewSplicer, replenish), every schedule with at most 1 preemption in all of them and at most 2 in most (quick, 30 s per scenario, about 100 000 executions) / up to 3 (thorough, 8 min per scenario): the UI lock is held in every private State method and frame, frames never overlap, no deadlock or panic, loaders finish, frames have the terminal's height, every final state equals that of a non-preemptive (serial) schedule, constructed items are identical in all schedules, one request per URL.",
+         "Scheduling points at Lock, Wait, go, exit, dial and the output callback (sufficient for data-race-free code); plain-memory races the scheduler cannot see are only covered indirectly (result determinism). UI scenarios inline the pub fan-out; the evidence lists the completed bound per scenario and exhaustive=true means every scenario finished bound 1.",
+         "DESIGN.md §3 C08, §2.2"),
  "C19": ("exploration",
          "complete enumeration of the colour space and of a configuration grid through the real parser against a reference acceptance predicate; start-up probes of every accepted single and pairwise configuration",
          "All 16^6 (quick) / 22^6 (thorough) six-digit colours and all 21.4 million strings of length <=7 over an 11-symbol alphabet through the real converter; the full product hook(7) x cache_size(7) x preload_amount(8) x timeout_seconds(8) x feeds(5), the four colours (6^4) and unknown keys, tables and a syntax error pairwise with every key through the real parser: reject / accept exactly as the reference says, accepted colours are decimal triples 0..255; every accepted configuration with at most two keys set starts a probe process (this binary under XDG_CONFIG_HOME) driving the real UI: rejected with a diagnostic or runs to PROBE-OK.",
